@@ -113,7 +113,7 @@ def replay_states(root, states, seed, idx, files, mode="mixed"):
     Returns dict(steps, viol=[(signature, what)], drift=str|None, evs=[...], known=[deviation names])."""
     sb = Sandbox(root)
     out = {"steps": 0, "viol": [], "drift": None, "evs": [], "dev": [], "final": None}
-    in_block = False
+    in_block = drifted = False
     try:
         for n, st in enumerate(states):
             ev = last_to_ev(st["last"])
@@ -134,7 +134,7 @@ def replay_states(root, states, seed, idx, files, mode="mixed"):
             depth, dev = st["depth"], sorted(st["dev"])
             # -- the property's post-conditions, on the REAL observations, against TLC's plain dict
             bad = []
-            if exc is not None and not want["exc"] and not any(c in docutil.KNOWN_EXC for c in exc):
+            if exc is not None and (drifted or not want["exc"]) and not any(c in docutil.KNOWN_EXC for c in exc):
                 bad.append("raises:" + exc[0])
             if depth == 0:
                 for f in files:
@@ -143,7 +143,7 @@ def replay_states(root, states, seed, idx, files, mode="mixed"):
                         break
                 if ev["op"] == "read" and exc is None and not eq_exact(ret, ideal[ev["h"][0]]):
                     bad.append("read!=dict")
-            elif ev["op"] == "read" and exc is None and "writers" in st:
+            elif ev["op"] == "read" and exc is None and "writers" in st and not drifted:
                 w = st["writers"][ev["h"][0]]
                 if w == frozenset([tuple(st["last"]["h"])]) and not eq_exact(ret, ideal[ev["h"][0]]):
                     bad.append("read-own-writes")
@@ -151,7 +151,7 @@ def replay_states(root, states, seed, idx, files, mode="mixed"):
                 where = "in-block" if depth > 0 else ("after-block" if in_block else "unbuffered")
                 what = ("%s after %s(%s): real result %r / files %r, plain dict %r (spec predicted files %r, result %r); operations: %s"
                         % (bad, ev["op"], ev["h"], exc[0] if exc else ret, real, ideal, exp, want["exc"] or want_v, _short(out["evs"])))
-                if res_json and disk_json and dev:
+                if res_json and disk_json and dev and not drifted:
                     # the real execution is exactly the specified (deviating) behaviour: known deviation, go on
                     out["dev"] = dev
                     if len(out["viol"]) < 4:
@@ -161,11 +161,13 @@ def replay_states(root, states, seed, idx, files, mode="mixed"):
                     out["dev"] = []
                     out["viol"] = [("%s:%s:%s" % (bad[0], ev["op"], where), what)]
                     break
-            if not (res_ok and disk_ok):
+            if not (res_ok and disk_ok) and not drifted:
+                # after a step the specification cannot explain its predictions are void, but the plain dict and the nesting
+                # depth depend on the operations only: go on, judging the stated post-conditions alone
+                drifted = True
                 out["drift"] = ("%s(%s) %s: real result %r files %r; spec result %r files %r; operations: %s"
                                 % (ev["op"], ev["h"], "key order only" if (res_json and disk_json) else "",
                                    exc[0] if exc else ret, real, want["exc"] or want_v, exp, _short(out["evs"])))
-                break
         out["final"] = sb.disk(files)
     finally:
         sb.close()
@@ -252,8 +254,34 @@ def judge_traces(ctx, results, source):
         elif v["done"] != v["len"] and not mis["l"]:
             raise core.MachineryError("trace %r: TLC stopped after %d of %d events without a mismatch (disabled action?): %s"
                                       % (meta, v["done"], v["len"], _short(evs[:v["done"] + 1])))
+        bad = v["bad"]
+        if bad["l"]:
+            # TLC: a post-condition of the property is false on the RECORDED observations of this step
+            n = bad["l"]
+            ev = evs[n - 1]
+            fs = {x["f"]: x for x in bad["files"]}
+            ideal = {f: wire_to_py(x["ideal"]) for f, x in fs.items() if x["ex"] or x["ideal"]["m"]}
+            what = ("%s: %s after step %d %s(%s): real result %r, real files %r; plain dict %r; the step %s; operations: %s"
+                    % (source, bad["which"], n, ev["op"], ev.get("h"), (raw[n - 1][0] or [None])[0] or raw[n - 1][1],
+                       {f: x for f, x in raw[n - 1][2].items() if x != ABSENT}, ideal,
+                       "conforms to the specification (deviations fired: %s)" % bad["dev"] if bad["conform"] else "is NOT what the specification yields",
+                       _short(evs[:n])))
+            if bad["conform"] and bad["dev"]:
+                stats["known"] += 1
+                for d in bad["dev"]:
+                    _viol(ctx, SIG[d], what, {"ops": evs[:n], "source": source})
+            else:
+                stats["viol"] += 1
+                where = "in-block" if bad["depth"] > 0 else ("after-block" if any(e["op"] == "enter" for e in evs[:n]) else "unbuffered")
+                kind = bad["which"][0] + (":" + bad["exc"] if bad["which"][0] == "raises" else "")
+                _viol(ctx, "%s:%s:%s" % (kind, ev["op"], where), what, {"ops": evs[:n], "source": source})
+            if mis["l"] and mis["l"] < n:
+                stats["drift"] += 1
+                ctx.spec_drift("%s: step %d %s(%s) is not what the specification yields (no stated post-condition false at that step); operations: %s"
+                               % (source, mis["l"], evs[mis["l"] - 1]["op"], evs[mis["l"] - 1].get("h"), _short(evs[:mis["l"]])))
+            continue
         if req["l"] and (not mis["l"] or req["l"] < mis["l"]):
-            # the real execution IS the spec behaviour up to here, and that behaviour breaks a requirement
+            # the real execution IS the spec behaviour up to here, and that behaviour breaks a requirement (on a hypothetical read)
             fs = {x["f"]: x for x in req["files"]}
             what = ("%s: requirement %s false after step %d of the real execution (it conforms to the specification, deviations fired: %s); "
                     "files %s, plain dict %s; operations: %s"
@@ -271,40 +299,17 @@ def judge_traces(ctx, results, source):
         if not mis["l"]:
             stats["accepted"] += 1
             continue
-        # first step the specification cannot explain: evaluate the property's post-conditions on the real observation
+        # a step the specification cannot explain, but no stated post-condition is false anywhere in the run: drift
         n = mis["l"]
         ev = evs[n - 1]
         fs = {x["f"]: x for x in mis["files"]}
-        ideal = {f: wire_to_py(x["ideal"]) for f, x in fs.items()}
-        spec_disk = {f: wire_to_py(x["v"]) if x["ex"] else ABSENT for f, x in fs.items()}
-        rec_res, rec_post = raw[n - 1][:2], raw[n - 1][2]
-        bad = _postconditions(ev, rec_res, rec_post, ideal, mis["depth"], mis["own"])
-        desc = ("%s: step %d %s(%s): real result %r files %r; spec result %r files %r; plain dict %r; operations: %s"
-                % (source, n, ev["op"], ev.get("h"), rec_res, rec_post, mis["res"]["exc"] or wire_to_py(mis["res"]["v"]), spec_disk, ideal, _short(evs[:n])))
-        if bad:
-            stats["viol"] += 1
-            where = "in-block" if mis["depth"] > 0 else ("after-block" if any(e["op"] == "enter" for e in evs[:n]) else "unbuffered")
-            _viol(ctx, "%s:%s:%s" % (bad[0], ev["op"], where), desc, {"ops": evs[:n], "source": source})
-        else:
-            stats["drift"] += 1
-            ctx.spec_drift(("key order only: " if mis["resjson"] and mis["postjson"] else "") + desc)
+        spec_disk = {f: wire_to_py(x["v"]) if x["ex"] else ABSENT for f, x in fs.items() if x["ex"]}
+        stats["drift"] += 1
+        ctx.spec_drift(("key order only: " if mis["resjson"] and mis["postjson"] else "") +
+                       "%s: step %d %s(%s): real result %r files %r; spec result %r files %r; operations: %s"
+                       % (source, n, ev["op"], ev.get("h"), (raw[n - 1][0] or [None])[0] or raw[n - 1][1], {f: x for f, x in raw[n - 1][2].items() if x != ABSENT},
+                          mis["res"]["exc"] or wire_to_py(mis["res"]["v"]), spec_disk, _short(evs[:n])))
     return stats
-
-
-def _postconditions(ev, res, post, ideal, depth, own=False):
-    """post-conditions of the property on a recorded real step (res = (exc mro, value), post = files)"""
-    bad = []
-    exc, ret = res
-    if exc is not None and not any(c in docutil.KNOWN_EXC for c in exc):
-        bad.append("raises:" + exc[0])
-    if depth == 0:
-        if any(not eq_exact(_json_or_empty(post[f]), ideal[f]) for f in post if f in ideal):
-            bad.append("file!=dict")
-        if ev["op"] == "read" and exc is None and not eq_exact(ret, ideal[ev["h"][0]]):
-            bad.append("read!=dict")
-    elif own and ev["op"] == "read" and exc is None and not eq_exact(ret, ideal[ev["h"][0]]):
-        bad.append("read-own-writes")
-    return bad
 
 
 # ---- variants of a TLC behaviour: the same operations without blocks / fully inside blocks -------
@@ -389,7 +394,7 @@ def graph_slice(ctx, name, consts, flags, frac, rnd, procs):
                 st["viol"] += 1
             for sig, what in rep["viol"][:2]:
                 _viol(ctx, sig, what, {"ops": rep["evs"], "source": "edge replay, slice " + name})
-        elif rep["drift"]:
+        if rep["drift"]:
             st["drift"] += 1
             ctx.spec_drift("slice %s: %s" % (name, rep["drift"]))
     # variants (deduplicated by operation sequence; a seeded sample of them)
@@ -441,6 +446,10 @@ def repo_scripts():
         "remove_reinit_inside_block": [E, S(("j2", 1), "n", 0), S(A, "x", 1), {"op": "reinit", "h": A}, R(A), S(A, "y", 2), R(A), X, R(B), R(("j2", 2))],
         "remove_reinit_inside_block_reset": [S(("j2", 1), "n", 0), E, {"op": "reset", "h": A, "v": {"x": [1]}}, {"op": "reinit", "h": A}, R(A), X, R(A),
                                              E, S(A, "y", 2), {"op": "reinit", "h": A}, X, R(B)],
+        "job_clear_other_handle": [S(B, "energy", -1.5), {"op": "setdefault", "h": B, "k": "steps", "v": []}, {"op": "append", "h": B, "k": "steps", "v": 100},
+                                   R(A), {"op": "jclear", "h": A}, R(A), R(B), S(B, "restarted", True), R(A), R(B),
+                                   S(B, "note", "x"), {"op": "jreset", "h": A}, {"op": "update", "h": B, "v": {"k": 1}}, R(A), R(B)],
+        "job_clear_inside_block": [E, S(A, "first", 1), {"op": "jclear", "h": A}, R(A), S(A, "second", 2), X, R(A), R(B)],
         "rekey_doc_follows": [S(A, "a", 1), {"op": "rekey", "h": A}, R(A), S(A, "b", 2), R(B)],
         "project_doc": [S(P, "a", 42), R(("p", 2)), {"op": "reset", "h": P, "v": {"b": [1]}}, R(("p", 2)), S(A, "a", 1), R(P)],
         "buffered_basic_and_nested": [S(A, "a", 0), E, S(A, "a", 1), G(A, "a"), X, G(A, "a"), E, S(A, "a", 2), E, S(A, "a", 3), G(A, "a"), X,
@@ -536,7 +545,7 @@ def run(ctx):
         st, vt = graph_slice(ctx, name, consts, flags, frac, rnd, procs)
         summary["slices"].append(st)
         vts += vt
-    need = {"set", "del", "update", "setdefault", "pop", "clear", "reset", "nset", "append", "lset", "read", "get", "enter", "exit", "remove", "rekey", "reinit", "setbad"}
+    need = {"set", "del", "update", "setdefault", "pop", "clear", "reset", "nset", "append", "lset", "read", "get", "enter", "exit", "remove", "rekey", "reinit", "jclear", "jreset", "setbad"}
     seen_ops = set()
     for st in summary["slices"]:
         seen_ops |= {o for o, n in st["ops"].items() if n}
